@@ -51,6 +51,13 @@ var specs = map[string]spec{
 			"UDP: only datagrams the listener's socket queue accepted count as sent; datagrams are <= ReadBufferSize",
 			"a progress-free fair phase dominated by reads/epoll_waits is reported as a spinning reader"}, assumeKernel...),
 	},
+	"C03": {
+		World: "core", Level: "exploration", QuickS: 40, ThoroughS: 900,
+		Rule: "cases = 1-3 connections of kind accepted / added (nbio.Dial + AddConn) / DialAsync[Timeout] with model outcome connected, refused or never answered; each with 0-4 concurrent enders drawn from {Close, CloseWithError, peer FIN, peer close, peer reset, read deadline, write deadline with backlog, write-buffer overflow, write to a dead peer} at random delays, optional post-Close API calls, injected dup / EPOLL_CTL_ADD failures, then Engine.Stop; non-trivial = >= 2 causes on one connection, or concurrent Close calls, or a dial that did not succeed; distinct = context-switch sequence hash",
+		Real: realCore, Stub: stubKernel,
+		Assumptions: append([]string{"first cause: the reported error must belong to a cause that became observable no later than the notification and was not preceded by another cause whose call had already returned; overlapping causes are all acceptable",
+			"'closed indication' = a non-nil error from Write/Writev/Sendfile, false from Execute; descriptor access is attributed by calling goroutine through the kernel model's syscall hook"}, assumeKernel...),
+	},
 	"C04": {
 		World: "core", Level: "exploration", QuickS: 40, ThoroughS: 900,
 		Rule: "same scenario as C01 biased to backlogs (peer stalls until the writers are done, tiny send capacity, writes from callbacks); after the last operation all faults stop, the scheduler is fair and the peer keeps reading: bounded liveness = at quiescence every accepted byte has arrived; non-trivial = a backlog existed; distinct = distinct context-switch sequence hash",
